@@ -15,7 +15,7 @@ func init() {
 	core.Register(&core.Prop{
 		ID:    "C03",
 		Level: "exploration",
-		Rule: "one replica driven in lock-step with the plain structure (int32, map, slice, JSON tree): seeded sequences of valid calls, invalid calls (index -1/size/size+1, count 0/over-range, empty key, nil value top-level / in a batch / nested, typed nil pointer, wrong container kind, call on an element, call on a deleted or replaced child document, remove of a missing key), reads and transactions; after every call: error-ness per the outcome table, return value, ToJSON, Size, reads, number of pending operations; panics are caught and reported with the call; " +
+		Rule: "one replica driven in lock-step with the plain structure (int32, map, slice, JSON tree): seeded sequences of valid calls, invalid calls (index -1/size/size+1, count 0/over-range, empty key, nil value top-level / in a batch / nested, typed nil pointer, wrong container kind, call on an element, call on a deleted or replaced child document, remove of a missing key), reads, committed and aborted transactions (an aborted one must leave the plain view, the reads and the pending operations exactly as before); after every call: error-ness per the outcome table, return value, ToJSON, Size, reads, number of pending operations; panics are caught and reported with the call; " +
 			"non-trivial = the sequence contains an invalid call followed by a valid one, or reaches >=5 distinct API methods; distinct = hash of the call script",
 		Assumptions: []string{
 			"return values are compared where the plain structure defines them (counter: new value; map put/remove: previous value; list delete/update: previous values; all getters)",
@@ -604,7 +604,8 @@ func (s *c03) captureStale(o crdt.Op) {
 func (s *c03) transaction() (string, string) {
 	r := s.c.Rng
 	k := 1 + r.Intn(3)
-	s.c.Step("transaction with %d calls", k)
+	abort := r.Intn(3) == 0
+	s.c.Step("transaction with %d calls (aborted=%v)", k, abort)
 	before := s.p.Clone()
 	nOK := 0
 	var sig, msg string
@@ -618,6 +619,9 @@ func (s *c03) transaction() (string, string) {
 			if e.Class == crdt.OK {
 				nOK++
 			}
+		}
+		if abort {
+			return errBoom
 		}
 		return nil
 	}
@@ -641,7 +645,18 @@ func (s *c03) transaction() (string, string) {
 	if sig != "" {
 		return sig, msg
 	}
-	_ = before
+	if abort {
+		// all-or-nothing as the plain structure sees it: nothing happened
+		if err == nil {
+			return "aborted-tx-no-error:" + s.p.Typ, "a transaction whose body returned an error reported success"
+		}
+		s.p = before
+		if np := len(s.rep.Pending()) - 1; np != s.npend {
+			return "pending:aborted-tx:" + s.p.Typ, fmt.Sprintf("after an aborted transaction %d operations await push, before it %d", np, s.npend)
+		}
+		s.c.Count("aborted_transactions", 1)
+		return s.observe("aborted transaction")
+	}
 	if err != nil {
 		return "tx-failed:" + s.p.Typ, fmt.Sprintf("a transaction of valid calls returned %v", err)
 	}
